@@ -26,6 +26,7 @@ func init() {
 				{Dir: "netutil", Func: "VerifC03Boundaries", Opts: o},
 				{Dir: "netutil", Func: "VerifC03IDN", Opts: o},
 				{Dir: "netutil", Func: "VerifC03NumericTLD", Opts: o},
+				{Dir: "netutil", Func: "VerifC03ACE", Opts: o, NoCoverCheck: true},
 			}
 		},
 		Bounds: func(thorough bool) map[string]string {
@@ -36,11 +37,12 @@ func init() {
 			return map[string]string{
 				"free strings":        "every ASCII string (all 128 values per byte) of length 0.." + n + " without an 'xn--' label, through the real idna.ToASCII",
 				"IDN":                 "names of 29..32 two-byte labels (punycode 240..264 bytes) and of 3..5 labels of 40 two-byte letters (raw 245..407 bytes) with one arbitrary ASCII byte in the final label, through the real idna.ToASCII (punycode) for all three validators",
+				"xn-- labels": "'' / 'a.' / '_s.a.' + 'xn--' or 'XN--' + 0..3 bytes from {'-','0','a','z'} + optional '.com', through the real idna.ToASCII (punycode decoder), all three validators",
 				"numeric final label": "final labels of 1..4, 9..11, 19..21, 38..40 and 63 bytes made of '9's or of the leading digits of 2^64/2^128 with two arbitrary ASCII bytes (one at a chosen position, one last), after 'a.' or '_s.b.', for all three validators",
 				"boundaries":          "label lengths 62..64, service labels 15..18, total lengths 252..254; bytes from [a-z0-9_-] minus 'x' with one arbitrary ASCII byte at the first/last position of the boundary label",
 			}
 		},
-		Outside:     []string{"names with non-ASCII bytes or 'xn--' labels: the statement takes idna.ToASCII as given; for those inputs its result is not modelled", "names longer than the bound outside the boundary shapes", "error message texts"},
+		Outside:     []string{"names with non-ASCII bytes or 'xn--' labels outside the IDN and xn-- families: the statement takes idna.ToASCII as given", "names longer than the bound outside the boundary shapes", "error message texts"},
 		Assumptions: []string{"reference grammar c03Ref written from the property statement (labels, lengths, inner hyphens, non-digit TLD, '_'+label <= 16)", "for ASCII names without 'xn--' labels idna.ToASCII is executed for real (it returns the name unchanged)"},
 		Stubs:       []string{"fmt.Errorf/Sprintf (error texts opaque, error objects real)"},
 		Technique:   "SSA->SMT bounded symbolic execution of the three validators and the real idna.ToASCII against a reference grammar; error type/field assertions on the returned interface value",
